@@ -29,15 +29,11 @@ SPECDIR = os.path.join(vlib.SPEC, "Peers")
 INPKG = os.path.join(vlib.HARNESS, "inpkg", "client_lib")
 HFILES = [os.path.join(INPKG, "peers_verif_test.go"), os.path.join(INPKG, "peerconnect_verif_test.go")]
 
-# Defects of other properties that this check also runs into (same code path);
-# they are owned by the named property and listed here only so that C15 does
-# not report them as its own while they are open.
-KNOWN = [
-    {"property": "C15", "key": "C15/panic:negotiate/answer-member-not-string", "status": "open",
-     "what": "D5 (owned by C13): util.DeserializeSessionDescription panics when the broker's answer has a "
-             "non-string type/sdp member; reached from BrokerChannel.Negotiate, i.e. a hostile or broken broker "
-             "answer terminates the client"},
-]
+# Open findings of this property (none: D8, D9, D10 are repaired).  D5 (C13,
+# DeserializeSessionDescription panicking on a non-string member, repaired by
+# 0418892) is on C15's path too: reverting it makes the PeerConnect classes
+# nonstring_type / nonstring_sdp fail with C15/panic:negotiate/answer-member-not-string.
+KNOWN = []
 
 MAX_REPORT = 8
 
@@ -175,7 +171,7 @@ class Graph:
 def dump_graph(chk, cfg):
     d = vlib.scratch("dot")
     dot = os.path.join(d, cfg.replace(".cfg", ".dot"))
-    r = vlib.tlc(SPECDIR, "Peers", cfg, workers=1, timeout=1200, dump_dot=dot, keep_prints=False)
+    r = vlib.tlc(SPECDIR, "Peers", cfg, workers=1, timeout=1200, dump_dot=dot, keep_prints=False, heap="3g")
     chk.add_tlc(r)
     if r.error:
         raise vlib.Inconclusive("GenSpec %s: %s\n%s" % (cfg, r.error, r.out[-1500:]))
@@ -206,12 +202,10 @@ def simulate(chk, cfg, num, depth):
 
 
 def cex_schedule(out):
-    """project a TLC counterexample (text) of the full specification to commands"""
+    """project a TLC counterexample (text) of a GenSpec configuration to commands"""
     steps = []
     for m in re.finditer(r"^State \d+: <(\w+(?:\(\d+\))?) line ", out, re.M):
-        if m.group(1) in ("LoopStop",):
-            continue
-        c = cmd_of(m.group(1))
+        c = cmd_of(m.group(1)) if m.group(1).startswith("G") else None
         if c is not None:
             steps.append(c)
     return steps
@@ -266,8 +260,18 @@ def signature(trace, hw):
         # final observation, or earlier because the model says Collect must leave its send once melt is closed
         if pending and (e["ev"] == "final" or (e["col"]["st"] == "send" and e["melted"])):
             full = "chan-full" if e["chanlen"] >= trace["max"] else "chan-not-full"
-            return "C15/hang:End@%s/behind-Collect@%s/%s" % ("+".join(pending), e["col"]["st"], full)
+            return "C15/hang:End@%s/behind-Collect@%s/%s" % ("lock" if "lock" in pending else "once", e["col"]["st"], full)
         live = e["created"] - len(e["closed"])
+        ended = any(x["st"] == "done" for x in e["ends"])
+        was_ended = bool(prev_obs) and any(x["st"] == "done" for x in prev_obs["ends"])
+        if was_ended and e["catches"] > prev_obs["catches"]:
+            return "C15/catch-after-End:Collect@%s" % e["col"]["st"]
+        if ended and live > 0:
+            return "C15/peer-left-open-after-End"
+        if live > trace["max"]:
+            return "C15/bound:more-than-Max-live-peers"
+        if e["pop"]["st"] == "idle" and e["pop"]["k"] > 0 and prev_obs and prev_obs["pop"]["st"] != "idle" and e["pop"]["k"] in prev_obs["closed"]:
+            return "C15/pop-returned-closed-peer"
         return "C15/unexplained:after-%s/col=%s:%s/pop=%s:%s/ends=%s/chan=%s/live%sMax/melted=%s" % (
             prev_cmd.get("ev", "?"), e["col"]["st"], e["col"]["res"], e["pop"]["st"],
             "none" if e["pop"]["k"] < 0 else ("nil" if e["pop"]["k"] == 0 else ("closed-peer" if e["pop"]["k"] in e["closed"] else "peer")),
@@ -291,7 +295,7 @@ def validate(chk, traces, scheds_by_id, tag, asis=False):
         f = os.path.join(d, "%s-max%d.ndjson" % (tag, mx))
         vlib.write_ndjson(f, ts)
         cfg = "Trace_max%d%s.cfg" % (mx, "_asis" if asis else "")
-        r = vlib.tlc(SPECDIR, "Peers_Trace", cfg, workers=1, timeout=1500, files={"traces.ndjson": f})
+        r = vlib.tlc(SPECDIR, "Peers_Trace", cfg, workers=1, timeout=1500, files={"traces.ndjson": f}, heap="3g")
         chk.add_tlc(r)
         if r.error:
             raise vlib.Inconclusive("trace validation %s (model only): %s\n%s" % (cfg, r.error, r.out[-2500:]))
@@ -371,6 +375,8 @@ def judge_peerconnect(chk, result):
         if x["result"] == exp["result"] and x["events"] == exp["events"]:
             continue
         bad += 1
+        if len(chk.violations) >= MAX_REPORT and not any(k.get("key") == pc_signature(x) for k in chk.known):
+            continue
         chk.violation(pc_signature(x), "one rendezvous attempt with ice=%s broker=%s dc=%s: the real dialer gave result=%s events=%s %s; "
                       "the contract (spec/Peers/PeerConnect.tla) demands result=%s events=%s" % (
                           x["ice"], x["broker"], x["dc"], x["result"], x["events"], (x.get("panic") or x.get("err") or "")[:200],
@@ -450,13 +456,17 @@ def run(chk, args):
             model_check(chk, q)
         if "peers" in only and not chk.inconclusive:
             peers(chk, q, rng)
+    except vlib.Inconclusive as e:
+        chk.fail(str(e))      # what the real-time parts observed on the real code still counts
     finally:
         for t in threads:
             t.join()
-    if "pc" in only:
-        judge_peerconnect(chk, pcres)
-    if "loop" in only:
-        judge_connectloop(chk, loopres)
+    for part, judge, res in (("pc", judge_peerconnect, pcres), ("loop", judge_connectloop, loopres)):
+        if part in only:
+            try:
+                judge(chk, res)
+            except vlib.Inconclusive as e:
+                chk.fail(str(e))
     chk.cov["exhaustive"] = False
     chk.cov["rule"] = ("an evaluation is one command schedule executed against the real Peers (projection of a TLC behaviour of "
                        "spec/Peers GenSpec: state-graph edge cover, seeded walks, -simulate samples, counterexamples of the as-is "
@@ -476,15 +486,17 @@ def run(chk, args):
 def model_check(chk, q):
     cfgs = ["MC_max1_quick.cfg", "MC_max2_quick.cfg"] if q else ["MC_max1.cfg", "MC_max2.cfg"]
     for cfg in cfgs:
-        r = vlib.tlc(SPECDIR, "Peers", cfg, timeout=3000, keep_prints=False, coverage=not q)
+        r = vlib.tlc(SPECDIR, "Peers", cfg, timeout=3000, keep_prints=False, coverage=not q, heap="4g")
         chk.add_tlc(r)
         chk.note("TLC %s: %d distinct states, error=%s (%.0fs)" % (cfg, r.distinct, r.error, r.wall))
         if r.error:
             chk.fail("model check %s failed (model only, no verdict): %s\n%s" % (cfg, r.error, r.out[-2500:]))
             return
         if not q:
+            if len(r.coverage) < 25:
+                chk.fail("vacuity: TLC coverage of %s lists only %d actions" % (cfg, len(r.coverage)))
+                return
             zero = sorted(a for a, (d, t) in r.coverage.items() if t == 0 and a not in ("Init",))
-            # ECloseChan's panic branch is unreachable by design; the action itself must fire
             if zero:
                 chk.fail("vacuity: actions never taken in %s: %s" % (cfg, zero))
                 return
@@ -527,11 +539,13 @@ def tlc_expect_error(chk, module, cfg, timeout=600):
     raise vlib.Inconclusive("TLC failed: %s\n%s" % (res.cmd, r.out[-2000:]))
 
 
-def asis_counterexamples(chk):
-    """The as-is configurations (pinned code) must violate NoPanic / EndReturns: the properties are not vacuous.
-    Their counterexamples are replayed on the real code as schedules."""
+def asis_counterexamples(chk, q):
+    """The as-is configurations (pinned code: AsIs_D8 / AsIs_D9 = TRUE) must violate NoPanic / NoStuckEnd /
+    EndReturns: the properties are not vacuous.  The counterexamples of the quiescent-grain configurations
+    are the minimal failing schedules; they are replayed on the real code with all other schedules."""
     out = []
-    for cfg, want, mx in (("MC_max1_asisD8.cfg", "invariant:NoPanic", 1), ("MC_max2_asisD9.cfg", "temporal:EndReturns", 2)):
+    for cfg, want, mx in (("Gen_max1_asisD8.cfg", "invariant:NoPanic", 1), ("Gen_max1_asisD9.cfg", "invariant:NoStuckEnd", 1),
+                          ("Gen_max2_asisD9.cfg", "invariant:NoStuckEnd", 2)):
         kind, text = tlc_expect_error(chk, "Peers", cfg)
         if kind != want:
             raise vlib.Inconclusive("vacuity: as-is configuration %s gives %s, expected %s" % (cfg, kind, want))
@@ -539,6 +553,12 @@ def asis_counterexamples(chk):
         if not steps:
             raise vlib.Inconclusive("no counterexample steps parsed from %s" % cfg)
         out.append((mx, steps))
+    if not q:
+        # the liveness property itself, on the full interleaving specification
+        for cfg, want in (("MC_max1_asisD8.cfg", "invariant:NoPanic"), ("MC_max2_asisD9.cfg", "temporal:EndReturns")):
+            kind, _ = tlc_expect_error(chk, "Peers", cfg)
+            if kind != want:
+                raise vlib.Inconclusive("vacuity: as-is configuration %s gives %s, expected %s" % (cfg, kind, want))
     return out
 
 
@@ -554,7 +574,7 @@ def peers(chk, q, rng):
         scheds.append({"id": len(scheds) + 1, "max": mx, "steps": steps, "src": src})
 
     # (c) counterexamples of the as-is configurations
-    for mx, steps in asis_counterexamples(chk):
+    for mx, steps in asis_counterexamples(chk, q):
         add(mx, steps, "cex")
         add(mx, steps + [{"op": "StartEnd", "c": 2}, {"op": "StartPop"}], "cex+")
     # the D9 lasso transposed to Max=3 and the two-closer variants of D8
@@ -564,7 +584,7 @@ def peers(chk, q, rng):
     d9 += [{"op": "PeerClose", "k": 1}, {"op": "StartCollect"}, {"op": "Catch", "ok": True}, {"op": "StartEnd", "c": 1}]
     add(3, d9, "cex-max3")
     # (a) state graph of the small configurations
-    for cfg, mx, limit, nwalk in ((("Gen_max1.cfg", 1, 400, 150), ("Gen_max2.cfg", 2, 700, 250)) if q else
+    for cfg, mx, limit, nwalk in ((("Gen_max1.cfg", 1, 700, 150), ("Gen_max2.cfg", 2, 1200, 250)) if q else
                                   (("Gen_max1.cfg", 1, 10 ** 6, 1500), ("Gen_max2.cfg", 2, 10 ** 6, 3000), ("Gen_max2_big.cfg", 2, 10 ** 6, 6000))):
         g, r = dump_graph(chk, cfg)
         paths, total, covered = g.covering(rng, limit)
